@@ -112,7 +112,7 @@ class C08(core.Prop):
         return system_input(c)
 
     def compare(self, c, obs, mout):
-        return compare_system(c, obs, mout)
+        return compare_system(c, obs, mout, blob_order="strict")
 
     def oracle(self, c, obs):
         if obs["status"] != "ok":
